@@ -19,6 +19,9 @@ def gen_history(rng, n_series, length):
                         'group': rng.choice(['main', 'main', 'main', 'step', 'initial']),
                         'mutate': rng.choice([None, None, 'append', 'pop', 'clear', 'sort', 'reverse', 'setitem',
                                               'extend', 'del0'])})
+        elif r < 0.60:
+            ops.append({'op': 'get_missing', 'name': rng.choice(['no_such_series', 'X__typo', 'x ', ' t', 'HH__F_']),
+                        'cutoff': rng.choice([None, 1]), 'group': rng.choice(['main', 'main', 'step', 'initial'])})
         elif r < 0.65:
             ops.append({'op': 'set_default_cutoff', 'value': rng.choice([None, 0, 1, 3, length])})
         elif r < 0.75:
@@ -43,7 +46,7 @@ class C16(object):
             'return value with the reference slice; BaseSolver.CreateCsvString histories likewise; distinct = hash of '
             '(holder data, history); non-trivial = >= 2 reads of which one with suppression or mutation')
     assumptions = ['series are non-empty when time-zero suppression is on', 'cutoffs are non-negative']
-    required_counters = ('get.judged', 'get.suppressed', 'get.mutated_return', 'csv.judged', 'csv.default_format', 'basesolver.judged',
+    required_counters = ('get.judged', 'get.suppressed', 'get.mutated_return', 'csv.judged', 'csv.default_format', 'basesolver.judged', 'get_missing.judged',
                          'insitu.gettimeseries.post_evaluated')
 
     def n_cases(self, tier):
@@ -116,6 +119,26 @@ class C16(object):
                 continue
             if op['op'] == 'set_suppress':
                 mod.TimeSeriesSupressTimeZero = op['value']
+                continue
+            if op['op'] == 'get_missing':
+                if op['name'] in snap[op['group']]:
+                    continue
+                try:
+                    mod.GetTimeSeries(op['name'], cutoff=op['cutoff'], group_of_series=op['group'])
+                    outcome = 'returned'
+                except KeyError:
+                    outcome = 'KeyError'
+                except Exception as e:
+                    outcome = type(e).__name__
+                rec.count('get_missing.judged')
+                if outcome != 'KeyError':
+                    rec.violate('missing_series_read_did_not_raise_KeyError', {'op': op, 'outcome': outcome})
+                    break
+                if not monitors.same_holders(snap, monitors.snapshot_holders(solver)):
+                    after = monitors.snapshot_holders(solver)
+                    rec.violate('read_changed_stored_results',
+                                {'op': op, 'new_series': sorted(set(after[op['group']]) - set(snap[op['group']]))})
+                    break
                 continue
             if op['op'] == 'get':
                 names = sorted(snap[op['group']].keys())
